@@ -1,10 +1,20 @@
 /-
-Helper lemmas for C04 (request accounting of the handler model): a Hoare logic over the full monad
-state (handler state + output log), and one "walk" through the handler functions per invariant.
+Helper lemmas for C04 (every request gets exactly one outcome; handler model).
+
+* a Hoare logic `Ho P m Q` over the full monad state (handler state + output log) with a forward
+  "walker" tactic (`ho_walk`) that steps through the `do`-blocks of `Model/Handler.lean`;
+* exact-effect / eliminator lemmas for the primitives that read the state;
+* one walk through all handler functions per invariant:
+  - walk T: `failed _ timeout` is only emitted on the timer path        (`timeout_only_from_timer'`)
+  - walk R: retry counters stay ≤ `request_retries`                      (`retries_bounded'`)
+  - walk P: every non-empty pending queue has a releaser                 (`pending_has_releaser'`)
+  - walk A: accounting of tracked requests against reported outcomes     (`step_spec`), from which
+    `tracked_nodup'`, `untracked_silent'`, `failure_untracks'`, `at_most_one_failure'`,
+    `nothing_after_failure'`, `every_request_accounted'`, `quiescent_complete'` follow.
 -/
 import Discv5Model.Proofs.HandlerBasics
 
-namespace Discv5.H
+namespace Discv5.H.RQ
 
 abbrev St := HState × List Out
 
@@ -404,7 +414,7 @@ theorem R_activeRemoveRequest {c : Cfg} (na rid) : Ho (RB c) (activeRemoveReques
     fun call hf => ⟨RB_erase hp call, fun x hx => by
       cases hx; exact hp _ (List.mem_of_find?_eq_some hf)⟩⟩)
 theorem R_activeRemoveRequests {c : Cfg} (na) : Ho (RB c) (activeRemoveRequests na) (fun _ => RB c) :=
-  ⟨fun st hp x hx => hp x (List.mem_filter.1 hx).1⟩
+  ⟨fun _ hp x hx => hp x (List.mem_filter.1 hx).1⟩
 
 
 theorem R_setS_pinned {c : Cfg} {s0 : HState} (s' : HState) (h : s'.active = s0.active) :
@@ -456,7 +466,7 @@ macro_rules | `(tactic| r_leaf) => `(tactic| with_reducible first
 theorem R_failRequest {c : Cfg} (call e b) : Ho (RB c) (failRequest c call e b) (fun _ => RB c) := by
   unfold failRequest; ho_walk
 macro_rules | `(tactic| r_leaf) => `(tactic| with_reducible exact R_failRequest _ _ _)
-theorem R_handleRequestTimeout {c : Cfg} (call : Call) (h : call.retries ≤ c.requestRetries) :
+theorem R_handleRequestTimeout {c : Cfg} (call : Call) (_h : call.retries ≤ c.requestRetries) :
     Ho (RB c) (handleRequestTimeout c call) (fun _ => RB c) := by
   unfold handleRequestTimeout; ho_walk
   simp only; omega
@@ -672,7 +682,7 @@ theorem P_sessPut {ex} (na sess) : Ho (PX ex) (sessPut na sess) (fun _ => PX ex)
     · simp only [hyk, if_true]; exact (beq_iff_eq.1 hyk)
     · simp only [hyk]; rfl))
 theorem P_sessRemove {ex} (na) : Ho (PX ex) (sessRemove na) (fun _ => PX ex) :=
-  Ho.modS _ (fun st h => h.sess _ (fun x hx => ⟨x, (List.mem_filter.1 hx).1, rfl⟩))
+  Ho.modS _ (fun _ h => h.sess _ (fun x hx => ⟨x, (List.mem_filter.1 hx).1, rfl⟩))
 
 def HasSess (na : NA) (st : St) : Prop := st.1.sessions.any (·.1 == na) = true
 
@@ -1216,8 +1226,8 @@ set_option linter.unusedSimpArgs false
 
 /-- (request id, internal?) of a tracked request. -/
 abbrev Item := Nat × Bool
-def Call.item (x : Call) : Item := (x.rid, x.internal)
-def PendingReq.item (x : PendingReq) : Item := (x.rid, x.internal)
+def _root_.Discv5.H.Call.item (x : Call) : Item := (x.rid, x.internal)
+def _root_.Discv5.H.PendingReq.item (x : PendingReq) : Item := (x.rid, x.internal)
 def pitems (p : List (NA × List PendingReq)) : List Item := p.flatMap (fun e => e.2.map PendingReq.item)
 /-- Everything tracked by the state. -/
 def items (s : HState) : List Item := s.active.map Call.item ++ pitems s.pending
@@ -1637,7 +1647,7 @@ theorem A_sessPut (na sess) (hs : SBig sess) :
     · simp only [hk]; exact hp.sb y hy))
 
 theorem A_sessRemove (na) : Ho (Acc rid n1 n2 z H) (sessRemove na) (fun _ => Acc rid n1 n2 z H) :=
-  Ho.modS _ (fun st hp => hp.sess _ (fun e he => hp.sb e (List.mem_filter.1 he).1))
+  Ho.modS _ (fun _ hp => hp.sess _ (fun e he => hp.sb e (List.mem_filter.1 he).1))
 
 theorem A_sessInsert (c : Cfg) (na sess) (hs : SBig sess) :
     Ho (Acc rid n1 n2 z H) (sessInsert c na sess) (fun _ => Acc rid n1 n2 z H) :=
@@ -2295,7 +2305,7 @@ theorem count_appRids_snoc (evs : List Ev) (e : Ev) (rid : Nat) :
     · simp [appRids, subm, hr, List.count_cons]
   | _ => simp [appRids, subm]
 
-theorem AppDiscipline.prefix {c : Cfg} {a b : List Ev} (h : AppDiscipline c (a ++ b)) : AppDiscipline c a := by
+theorem _root_.Discv5.H.AppDiscipline.prefix {c : Cfg} {a b : List Ev} (h : AppDiscipline c (a ++ b)) : AppDiscipline c a := by
   obtain ⟨h1, h2, h3⟩ := h
   rw [appRids_append] at h1 h2
   exact ⟨(List.nodup_append.1 h1).1, fun r hr => h2 r (List.mem_append.2 (Or.inl hr)), h3⟩
@@ -2457,5 +2467,5 @@ theorem quiescent_complete' (c : Cfg) (evs : List Ev) (h : AppDiscipline c evs)
     simp at hm
   · exact ho
 
-end Discv5.H
+end Discv5.H.RQ
 
